@@ -71,7 +71,7 @@ Qed.
 
 Lemma EK_inj_simple g : simple g -> forall x y, In x (cov_edges g) -> In y (cov_edges g) -> EK x = EK y -> x = y.
 Proof.
-  intros [_ Hs] [[u v] [o s]] [[u' v'] [o' s']] Hx Hy E. apply Hs; auto.
+  intros Hs [[u v] [o s]] [[u' v'] [o' s']] Hx Hy E. apply (simple_keys g Hs); auto.
   unfold EK in E. inversion E. simpl. f_equal; apply N2Z.inj; auto.
 Qed.
 
